@@ -1285,4 +1285,308 @@ Proof.
   rewrite (K_eos _ _ (proj2 (ac_inv _ _ _ _ _ _ A)) H4 H5), app_nil_r. exact H1.
 Qed.
 
+(* ------------------------------------------------------------------------------------------ *)
+(* Part 6: along a handler (C09): what the handler observes is the stream                       *)
+(* ------------------------------------------------------------------------------------------ *)
+
+(* one handler operation as logged in [events] (what the correspondence check compares with the crate);
+   [lost] = stream bytes copied into the caller's buffer by a call that then failed (not observable) *)
+Inductive obs :=
+| ORead (c : N) (b : bytes)            (* 1 n: read(buf) = Ok(c), the bytes *)
+| OReadErr (k : N) (lost : bytes)      (* 1 n: read(buf) = Err(kind) *)
+| OAll (k : N) (acc lost : bytes)      (* 2: read_to_end: 0 or the error kind, the bytes collected *)
+| OFill (c : N) (seen : bytes)         (* 3 k: fill_buf() = Ok(seen), consume(c) *)
+| OFillErr (e : N)                     (* 3 k: fill_buf() = Err(kind) *)
+| OSet (code : N)                      (* 4 s: set_stream(Some s) accepted, the active stream afterwards *)
+| OWr (e wr code : N).                 (* 5: writeable(): result, is_writeable(), the active stream afterwards *)
+
+(* newest first, as in [events] *)
+Definition obs_events (o : obs) : list (list N) :=
+  match o with
+  | ORead c b => [b; [1; 1; c]]
+  | OReadErr k _ => [[]; [1; 0; k]]
+  | OAll k acc _ => [acc; [2; k]]
+  | OFill c seen => [seen; [3; 1; c]]
+  | OFillErr e => [[]; [3; 0; e]]
+  | OSet code => [[4; code]]
+  | OWr e wr code => [[5; e; wr; code]]
+  end.
+
+(* the stream bytes the operation took out of K: delivered to the handler, or dropped by a failing call *)
+Definition obs_bytes (o : obs) : bytes :=
+  match o with
+  | ORead _ b => b
+  | OReadErr _ lost => lost
+  | OAll _ acc lost => acc ++ lost
+  | OFill c seen => take c seen
+  | _ => []
+  end.
+
+Definition code_stream (c : N) : option N := if c =? 0 then None else Some c.
+
+Definition obs_switch (o : obs) : option (option N) :=
+  match o with OSet c => Some (code_stream c) | OWr _ _ c => Some (code_stream c) | _ => None end.
+
+(* the law of a trace of observations, from the state (a0, u0) in which the handler started:
+   within an epoch every operation takes its bytes from the front of what is still to come of the active stream;
+   selecting another stream s starts an epoch whose content is F s a0 u0 -- the content of s as seen from the
+   very beginning: nothing of a later stream is consumed or lost while an earlier one is active *)
+Fixpoint tlaw (a0 : ast) (u0 : bytes) (cur : option N) (T : bytes) (os : list obs) (T' : bytes) : Prop :=
+  match os with
+  | [] => T' = T
+  | o :: t =>
+    match obs_switch o with
+    | Some s => if optN_eqb s cur then tlaw a0 u0 cur T t T' else tlaw a0 u0 s (F s a0 u0) t T'
+    | None => exists T1, T = obs_bytes o ++ T1 /\ tlaw a0 u0 cur T1 t T'
+    end
+  end.
+
+(* scripts made of the read operations, set_stream, writeable, and the two ways to return *)
+Inductive rd_script : list N -> Prop :=
+| RS_nil : rd_script []
+| RS_read n rest : rd_script rest -> rd_script (1 :: n :: rest)
+| RS_all rest : rd_script rest -> rd_script (2 :: rest)
+| RS_fill k rest : rd_script rest -> rd_script (3 :: k :: rest)
+| RS_set s rest : rd_script rest -> rd_script (4 :: s :: rest)
+| RS_wr rest : rd_script rest -> rd_script (5 :: rest)
+| RS_exit d c rest : rd_script (8 :: d :: c :: rest)
+| RS_fail k rest : rd_script (9 :: k :: rest).
+
+Definition hr_post (a0 : ast) (u0 : bytes) (r : rstate) (w : world) (x : res ((N * N + N) * rstate)) : Prop :=
+  exists os,
+  match x with
+  | Ok (st, r') w' =>
+      (exists fin, events w' = fin :: flat_map obs_events (rev os) ++ events w) /\ pinv (rsp r') /\
+      sreq (rsp r') = sreq (rsp r) /\
+      tlaw a0 u0 (stream (rsp r)) (K (abs (rsp r)) (remaining w)) os (K (abs (rsp r')) (remaining w'))
+  | Halt o w' =>
+      events w' = flat_map obs_events (rev os) ++ events w /\
+      exists T', tlaw a0 u0 (stream (rsp r)) (K (abs (rsp r)) (remaining w)) os T'
+  end.
+
+(* streams later than the active one still have the content they had at the start *)
+Definition later_kept (a0 : ast) (u0 : bytes) (r : rstate) (w : world) : Prop :=
+  forall sg, later_stream (abs (rsp r)) sg -> F (Some sg) (abs (rsp r)) (remaining w) = F (Some sg) a0 u0.
+
+Lemma later_kept_acct a0 u0 r w dl r' w' : acct [] r w dl r' w' -> later_kept a0 u0 r w -> later_kept a0 u0 r' w'.
+Proof.
+  intros A J sg Hl.
+  assert (Hl0 : later_stream (abs (rsp r)) sg).
+  { unfold later_stream in *. cbn [abs a_stream a_req] in *.
+    rewrite <- (ac_stream _ _ _ _ _ _ A), <- (ac_req _ _ _ _ _ _ A). exact Hl. }
+  rewrite <- (J sg Hl0). symmetry. apply (ac_F _ _ _ _ _ _ A sg Hl0).
+Qed.
+
+Lemma code_stream_code p : stream_ok p -> code_stream (stream_code (stream p)) = stream p.
+Proof.
+  unfold stream_ok, code_stream, stream_code. destruct (stream p) as [x|]; [|reflexivity].
+  intros H. apply is_input_cases in H. destruct H as [-> | ->]; reflexivity.
+Qed.
+
+(* an accepted selection of another stream moves forward in the role's order *)
+Lemma switch_later p s p1 : set_stream p s = SetOk p1 -> optN_eqb s (stream p) = false ->
+  s = None \/ exists sg, s = Some sg /\ later_stream (abs p) sg.
+Proof.
+  intros E Hne. pose proof (set_stream_ok_accepted _ _ _ E) as A. destruct s as [x|]; [right|left; reflexivity].
+  exists x. split; [reflexivity|]. unfold later_stream. cbn [abs a_stream a_req].
+  unfold accepts in A. destruct (stream p) as [c|] eqn:Es.
+  - destruct (cmp_input_streams (r_role (sreq p)) x (Some c)) as [[| |]|] eqn:Ec; try discriminate A; [|reflexivity].
+    exfalso. unfold cmp_input_streams in Ec.
+    destruct (negb (is_input_stream x) || negb (is_input_stream c)); [discriminate Ec|].
+    cbn [optN_eqb] in Hne. rewrite Hne in Ec.
+    revert Ec. generalize (role_input_streams (r_role (sreq p))). intros l.
+    assert (G : forall l pos, pos <> Eq ->
+              (fix go (l : list N) (pos : ord) {struct l} : ord :=
+                 match l with
+                 | [] => Lt
+                 | s :: t => if s =? x then pos else if s =? c then go t Gt else go t pos
+                 end) l pos <> Eq).
+    { clear. induction l as [|y t IH]; intros pos Hp; [discriminate|].
+      destruct (y =? x); [exact Hp|]. destruct (y =? c); [apply IH; discriminate|apply IH; exact Hp]. }
+    intros Ec. injection Ec as Ec. apply (G l Lt ltac:(discriminate) Ec).
+  - cbn [cmp_input_streams] in A. discriminate A.
+Qed.
+
+(* there are only two input stream types: after one step forward nothing is later *)
+Lemma later_chain_absurd role cur s sg :
+  cmp_input_streams role s (Some cur) = Some Gt -> cmp_input_streams role sg (Some s) = Some Gt -> False.
+Proof.
+  intros H1 H2. destruct (cmp_gt_input _ _ _ H1) as [Hs Hc]. destruct (cmp_gt_input _ _ _ H2) as [Hg _].
+  apply is_input_cases in Hs. apply is_input_cases in Hc. apply is_input_cases in Hg.
+  unfold cmp_input_streams in *.
+  destruct (role_streams_cases role) as [Hr|[Hr|Hr]]; rewrite Hr in *;
+  destruct Hs as [-> | ->]; destruct Hc as [-> | ->]; destruct Hg as [-> | ->];
+  vm_compute in H1; try discriminate H1; vm_compute in H2; discriminate H2.
+Qed.
+
+Lemma hr_post_cons a0 u0 r w o r1 w1 x :
+  events w1 = obs_events o ++ events w -> sreq (rsp r1) = sreq (rsp r) ->
+  (forall t T', tlaw a0 u0 (stream (rsp r1)) (K (abs (rsp r1)) (remaining w1)) t T' ->
+                tlaw a0 u0 (stream (rsp r)) (K (abs (rsp r)) (remaining w)) (o :: t) T') ->
+  hr_post a0 u0 r1 w1 x -> hr_post a0 u0 r w x.
+Proof.
+  intros Hev Hq HT [os H]. exists (o :: os).
+  assert (Hfm : flat_map obs_events (rev (o :: os)) ++ events w = flat_map obs_events (rev os) ++ events w1).
+  { cbn [rev]. rewrite flat_map_app. cbn [flat_map]. rewrite app_nil_r, <- app_assoc, Hev. reflexivity. }
+  destruct x as [[st r'] w'|ox w'].
+  - destruct H as ((fin & H1) & H2 & H3 & H4). split; [exists fin; rewrite Hfm; exact H1|]. split; [exact H2|].
+    split; [rewrite H3; exact Hq|]. apply HT. exact H4.
+  - destruct H as (H1 & T' & H2). split; [rewrite Hfm; exact H1|]. exists T'. apply HT. exact H2.
+Qed.
+
+Lemma remaining_ev w e : remaining (w_ev w e) = remaining w.
+Proof. reflexivity. Qed.
+
+(* an operation that stays in the epoch *)
+Lemma tlaw_bytes a0 u0 cur T o T1 t T' : obs_switch o = None -> T = obs_bytes o ++ T1 ->
+  tlaw a0 u0 cur T1 t T' -> tlaw a0 u0 cur T (o :: t) T'.
+Proof. intros Hs HT H. cbn [tlaw]. rewrite Hs. exists T1. split; assumption. Qed.
+
+Lemma optN_eqb_refl a : optN_eqb a a = true.
+Proof. destruct a; cbn [optN_eqb]; [apply N.eqb_refl|reflexivity]. Qed.
+
+(* set_stream in the trace law *)
+Lemma switch_law a0 u0 r w s p1 : pinv (rsp r) -> later_kept a0 u0 r w -> set_stream (rsp r) s = SetOk p1 ->
+  (forall wr lk, later_kept a0 u0 (mkR p1 wr lk) w) /\
+  (forall t T', tlaw a0 u0 s (K (abs p1) (remaining w)) t T' ->
+      if optN_eqb s (stream (rsp r)) then tlaw a0 u0 (stream (rsp r)) (K (abs (rsp r)) (remaining w)) t T'
+      else tlaw a0 u0 s (F s a0 u0) t T').
+Proof.
+  intros Hinv J ES.
+  destruct (set_stream_step _ _ _ Hinv ES) as (I1 & Q1 & S1 & _ & _ & _ & _ & _ & SAME & DIFF).
+  destruct (optN_eqb s (stream (rsp r))) eqn:Heq.
+  - specialize (SAME eq_refl). subst p1. apply optN_eqb_eq in Heq. subst s.
+    split; [intros wr lk; exact J|intros t T' H; exact H].
+  - destruct (DIFF eq_refl) as [_ HK].
+    destruct (switch_later _ _ _ ES Heq) as [->|(sg & -> & Hl)].
+    + split.
+      * intros wr lk sg Hl. unfold later_stream in Hl. cbn [abs a_stream rsp] in Hl. rewrite S1 in Hl. contradiction.
+      * intros t T' H. rewrite HK in H. rewrite !F_none in *. exact H.
+    + split.
+      * intros wr lk sg2 Hl2. exfalso. unfold later_stream in Hl, Hl2. cbn [abs a_stream a_req rsp] in Hl, Hl2.
+        rewrite S1, Q1 in Hl2. destruct (stream (rsp r)) as [c|]; [|contradiction].
+        apply (later_chain_absurd _ _ _ _ Hl Hl2).
+      * intros t T' H. rewrite HK, (J sg Hl) in H. exact H.
+Qed.
+
+Lemma do_writeable_halt_events r w o w' : pinv (rsp r) -> bytes_ok (remaining w) ->
+  do_writeable maxc r w = Halt o w' -> events w' = events w.
+Proof.
+  intros Hinv Hrem E. unfold do_writeable in E. destruct (rwriteable r); [discriminate E|].
+  destruct (set_stream (rsp r) _) as [p1| |] eqn:ES; try (injection E as _ <-; reflexivity).
+  destruct (set_stream_step _ _ _ Hinv ES) as (I1 & _).
+  pose proof (await_input_reads (io_fuel w 0) None (mkR p1 false (rlock r)) w I1 Hrem) as AI.
+  destruct (await_input maxc (io_fuel w 0) None (mkR p1 false (rlock r)) w) as [[[x|k] r2] w2|o2 w2]; try discriminate E.
+  injection E as _ <-. cbn [ai_post] in AI. destruct AI as (r2 & A & _). apply (ac_ev _ _ _ _ _ _ A).
+Qed.
+
+(* items 1 and 3 along a handler: every read operation delivers the front of what is still to come of the active
+   stream (K); a stream selected later delivers its content as of the start of the handler (F) *)
+Theorem run_handler_reads a0 u0 script : rd_script script ->
+  forall f r w, pinv (rsp r) -> bytes_ok (remaining w) -> later_kept a0 u0 r w ->
+  hr_post a0 u0 r w (run_handler maxc f script r w).
+Proof.
+  induction 1 as [|n rest H IH|rest H IH|k rest H IH|s rest H IH|rest H IH|d c rest|k rest];
+    intros f r w Hinv Hrem J;
+    (destruct f as [|f]; [exists []; cbn [run_handler rev flat_map app tlaw]; split; [reflexivity|eexists; reflexivity]|]);
+    cbn [run_handler].
+  - exists []. split; [exists [8]; reflexivity|]. split; [exact Hinv|]. split; reflexivity.
+  - (* 1 n *)
+    pose proof (await_input_reads (io_fuel w 0) (Some n) r w Hinv Hrem) as AI.
+    destruct (await_input maxc (io_fuel w 0) (Some n) r w) as [[[[c b]|k] r1] w1|o w1]; cbn [ai_post] in AI.
+    + destruct AI as (dl & A & C & _). cbn [pi_case] in C. destruct C as (-> & _).
+      apply (hr_post_cons a0 u0 r w (ORead c b) r1 (w_ev (w_ev w1 [1; 1; c]) b)).
+      * cbn [obs_events w_ev events app]. rewrite (ac_ev _ _ _ _ _ _ A). reflexivity.
+      * apply (ac_req _ _ _ _ _ _ A).
+      * intros t T' HT. rewrite (ac_stream _ _ _ _ _ _ A) in HT.
+        apply (tlaw_bytes a0 u0 _ _ _ (K (abs (rsp r1)) (remaining w1))); [reflexivity|exact (ac_K _ _ _ _ _ _ A)|exact HT].
+      * apply IH; [apply (ac_inv _ _ _ _ _ _ A)|exact (acct_bytes_ok _ _ _ _ _ _ A Hrem)|exact (later_kept_acct _ _ _ _ _ _ _ A J)].
+    + destruct AI as (dl & A & C & _).
+      apply (hr_post_cons a0 u0 r w (OReadErr k dl) r1 (w_ev (w_ev w1 [1; 0; k]) [])).
+      * cbn [obs_events w_ev events app]. rewrite (ac_ev _ _ _ _ _ _ A). reflexivity.
+      * apply (ac_req _ _ _ _ _ _ A).
+      * intros t T' HT. rewrite (ac_stream _ _ _ _ _ _ A) in HT.
+        apply (tlaw_bytes a0 u0 _ _ _ (K (abs (rsp r1)) (remaining w1))); [reflexivity|exact (ac_K _ _ _ _ _ _ A)|exact HT].
+      * apply IH; [apply (ac_inv _ _ _ _ _ _ A)|exact (acct_bytes_ok _ _ _ _ _ _ A Hrem)|exact (later_kept_acct _ _ _ _ _ _ _ A J)].
+    + destruct AI as (r1 & A & _). exists []. cbn [rev flat_map app tlaw].
+      split; [apply (ac_ev _ _ _ _ _ _ A)|eexists; reflexivity].
+  - (* 2 *)
+    match goal with |- context [read_all maxc ?fu [] r w] =>
+      pose proof (read_all_reads fu [] r w Hinv Hrem) as RA; destruct (read_all maxc fu [] r w) as [[[k acc] r1] w1|o w1] end.
+    + destruct RA as (bs & lost & H1 & A & _). cbn [app] in H1. subst acc.
+      apply (hr_post_cons a0 u0 r w (OAll k bs lost) r1 (w_ev (w_ev w1 [2; k]) bs)).
+      * cbn [obs_events w_ev events app]. rewrite (ac_ev _ _ _ _ _ _ A). reflexivity.
+      * apply (ac_req _ _ _ _ _ _ A).
+      * intros t T' HT. rewrite (ac_stream _ _ _ _ _ _ A) in HT.
+        apply (tlaw_bytes a0 u0 _ _ _ (K (abs (rsp r1)) (remaining w1))); [reflexivity|exact (ac_K _ _ _ _ _ _ A)|exact HT].
+      * apply IH; [apply (ac_inv _ _ _ _ _ _ A)|exact (acct_bytes_ok _ _ _ _ _ _ A Hrem)|exact (later_kept_acct _ _ _ _ _ _ _ A J)].
+    + destruct RA as (bs & r1 & A). exists []. cbn [rev flat_map app tlaw].
+      split; [apply (ac_ev _ _ _ _ _ _ A)|eexists; reflexivity].
+  - (* 3 k *)
+    pose proof (await_input_reads (io_fuel w 0) None r w Hinv Hrem) as AI.
+    destruct (await_input maxc (io_fuel w 0) None r w) as [[[[c b]|e] r1] w1|o w1]; cbn [ai_post] in AI.
+    + destruct AI as (dl & A & C & _). cbn [pi_case] in C. destruct C as (-> & -> & _).
+      set (seen := stream_buffer (rsp r1)). set (cc := N.min k (len seen)).
+      pose proof (consume_acct r1 w1 cc (rwriteable r1) (rlock r1) (ac_inv _ _ _ _ _ _ A)) as A2. fold seen in A2.
+      replace (N.min cc (len seen)) with cc in A2 by (subst cc; lia).
+      pose proof (acct_trans0 _ _ _ _ _ _ _ _ A A2) as A3. cbn [app] in A3.
+      apply (hr_post_cons a0 u0 r w (OFill cc seen) (mkR (consume_stream (rsp r1) cc) (rwriteable r1) (rlock r1))
+               (w_ev (w_ev w1 [3; 1; cc]) seen)).
+      * cbn [obs_events w_ev events app]. rewrite (ac_ev _ _ _ _ _ _ A). reflexivity.
+      * apply (ac_req _ _ _ _ _ _ A3).
+      * intros t T' HT. rewrite (ac_stream _ _ _ _ _ _ A3) in HT.
+        apply (tlaw_bytes a0 u0 _ _ _ (K (abs (consume_stream (rsp r1) cc)) (remaining w1))); [reflexivity|exact (ac_K _ _ _ _ _ _ A3)|exact HT].
+      * apply IH; [apply (ac_inv _ _ _ _ _ _ A3)|exact (acct_bytes_ok _ _ _ _ _ _ A3 Hrem)|exact (later_kept_acct _ _ _ _ _ _ _ A3 J)].
+    + destruct AI as (dl & A & C & _).
+      assert (dl = []).
+      { cbn [pi_case] in C. destruct C as [(e0 & _ & _ & _ & C4 & _)|[(C1 & _)|(C1 & _)]]; [apply C4; reflexivity|exact C1|exact C1]. }
+      subst dl.
+      apply (hr_post_cons a0 u0 r w (OFillErr e) r1 (w_ev (w_ev w1 [3; 0; e]) [])).
+      * cbn [obs_events w_ev events app]. rewrite (ac_ev _ _ _ _ _ _ A). reflexivity.
+      * apply (ac_req _ _ _ _ _ _ A).
+      * intros t T' HT. rewrite (ac_stream _ _ _ _ _ _ A) in HT.
+        apply (tlaw_bytes a0 u0 _ _ _ (K (abs (rsp r1)) (remaining w1))); [reflexivity|exact (ac_K _ _ _ _ _ _ A)|exact HT].
+      * apply IH; [apply (ac_inv _ _ _ _ _ _ A)|exact (acct_bytes_ok _ _ _ _ _ _ A Hrem)|exact (later_kept_acct _ _ _ _ _ _ _ A J)].
+    + destruct AI as (r1 & A & _). exists []. cbn [rev flat_map app tlaw].
+      split; [apply (ac_ev _ _ _ _ _ _ A)|eexists; reflexivity].
+  - (* 4 s *)
+    destruct (set_stream (rsp r) (Some s)) as [p1| |] eqn:ES;
+      try (exists []; cbn [rev flat_map app tlaw]; split; [reflexivity|eexists; reflexivity]).
+    destruct (set_stream_step _ _ _ Hinv ES) as (I1 & Q1 & S1 & _).
+    destruct (switch_law a0 u0 r w (Some s) p1 Hinv J ES) as [J1 SW].
+    apply (hr_post_cons a0 u0 r w (OSet (stream_code (stream p1))) (mkR p1 (rwriteable r) (rlock r))
+             (w_ev w [4; stream_code (stream p1)])).
+    + reflexivity.
+    + exact Q1.
+    + intros t T' HT. cbn [tlaw obs_switch]. rewrite (code_stream_code p1 (pinv_stream_ok _ I1)), S1.
+      apply SW. cbn [rsp] in HT. rewrite S1 in HT. exact HT.
+    + apply IH; [exact I1|exact Hrem|apply J1].
+  - (* 5 *)
+    destruct (do_writeable maxc r w) as [[e r1] w1|o w1] eqn:ED.
+    2:{ exists []. cbn [rev flat_map app tlaw]. split; [apply (do_writeable_halt_events _ _ _ _ Hinv Hrem ED)|eexists; reflexivity]. }
+    destruct (do_writeable_gate r w e r1 w1 Hinv Hrem ED) as [G1 G2].
+    set (o := OWr (match e with None => 0 | Some k => k end) (if rwriteable r1 then 1 else 0) (stream_code (stream (rsp r1)))).
+    destruct (rwriteable r) eqn:Ewr.
+    + destruct (G1 eq_refl) as (-> & -> & ->).
+      apply (hr_post_cons a0 u0 r w o r (w_ev w [5; 0; if rwriteable r then 1 else 0; stream_code (stream (rsp r))])).
+      * reflexivity.
+      * reflexivity.
+      * intros t T' HT. subst o. cbn [tlaw obs_switch]. rewrite (code_stream_code _ (pinv_stream_ok _ Hinv)), optN_eqb_refl. exact HT.
+      * apply IH; [exact Hinv|exact Hrem|exact J].
+    + destruct (G2 eq_refl) as (p1 & ES & S & Q & _ & A & _). cbv zeta in *.
+      destruct (switch_law a0 u0 r w _ p1 Hinv J ES) as [J1 SW].
+      pose proof (ac_K _ _ _ _ _ _ A) as HK. cbn [app rsp] in HK.
+      apply (hr_post_cons a0 u0 r w o r1 (w_ev w1 [5; match e with None => 0 | Some k => k end; if rwriteable r1 then 1 else 0;
+                                                     stream_code (stream (rsp r1))])).
+      * cbn [obs_events w_ev events app o]. rewrite (ac_ev _ _ _ _ _ _ A). reflexivity.
+      * exact Q.
+      * intros t T' HT. subst o. cbn [tlaw obs_switch].
+        rewrite (code_stream_code _ (pinv_stream_ok _ (ac_inv _ _ _ _ _ _ A))), S.
+        apply SW. rewrite S in HT. rewrite HK. exact HT.
+      * apply IH; [apply (ac_inv _ _ _ _ _ _ A)|exact (acct_bytes_ok _ _ _ _ _ _ A Hrem)|].
+        exact (later_kept_acct _ _ _ _ _ _ _ A (J1 false (rlock r))).
+  - exists []. split; [exists [8]; reflexivity|]. split; [exact Hinv|]. split; reflexivity.
+  - exists []. split; [exists [9]; reflexivity|]. split; [exact Hinv|]. split; reflexivity.
+Qed.
+
 End Reads.
